@@ -240,6 +240,7 @@ def concrete_eval(e, env):
     if isinstance(e, _ast.Attribute):
         b = ev(e.value)
         if isinstance(b, _ast.AST) and e.attr in type(b)._fields: return getattr(b, e.attr)
+        if type(b).__name__ == 'code' and e.attr.startswith('co_'): return getattr(b, e.attr)          # data attributes of a sample code object
         raise Unknown
     if isinstance(e, (_ast.Tuple, _ast.List)): return tuple(ev(x) for x in e.elts)
     if isinstance(e, _ast.BoolOp):
@@ -265,6 +266,22 @@ def concrete_eval(e, env):
             if isinstance(op, _ast.In): return l in r
             if isinstance(op, _ast.NotIn): return l not in r
         except TypeError: raise Unknown
+    if isinstance(e, _ast.BinOp) and isinstance(e.op, (_ast.Add, _ast.Sub)):
+        l, r = ev(e.left), ev(e.right)
+        try: return l + r if isinstance(e.op, _ast.Add) else l - r
+        except TypeError: raise Unknown
+    if isinstance(e, _ast.Subscript) and not isinstance(e.slice, _ast.Slice):
+        b, k = ev(e.value), ev(e.slice)
+        if isinstance(b, (tuple, list, str, dict)):
+            try: return b[k]
+            except (IndexError, KeyError, TypeError): raise Unknown
+        raise Unknown
+    if isinstance(e, (_ast.GeneratorExp, _ast.ListComp)) and len(e.generators) == 1 and isinstance(e.generators[0].target, _ast.Name):
+        gen = e.generators[0]; out = []
+        for item in ev(gen.iter):
+            env2 = dict(env); env2[gen.target.id] = item
+            if all(concrete_eval(c, env2) for c in gen.ifs): out.append(concrete_eval(e.elt, env2))
+        return out if isinstance(e, _ast.ListComp) else iter(out)
     if isinstance(e, _ast.Call) and not e.keywords:
         if isinstance(e.func, _ast.Name) and e.func.id in _SAFE and callable(_SAFE[e.func.id]): return _SAFE[e.func.id](*[ev(a) for a in e.args])
         if isinstance(e.func, _ast.Attribute) and e.func.attr in ('startswith', 'endswith'):
